@@ -338,3 +338,30 @@ func jsonStr(v interface{}) string {
 	}
 	return string(b)
 }
+
+// CapWindows returns copies of b as windows of caller-owned buffers (0xEE behind the window) whose spare capacity runs through
+// the classes that matter to append-style callees working in blocks of bs bytes: none, one byte short of / exactly at / one byte
+// beyond the next block boundary, the same around the boundary after that (schemes that add a whole block), and plenty.
+// Callees choose between "grow in place" and "allocate" by comparing capacities, so every class must give the same answer.
+func CapWindows(b []byte, bs int) [][]byte {
+	if bs <= 0 {
+		bs = 16
+	}
+	next := len(b) + bs - len(b)%bs
+	caps := []int{len(b), next - 1, next, next + 1, next + bs - 1, next + bs, next + bs + 1, len(b) + 3*bs + 5}
+	seen := map[int]bool{}
+	var out [][]byte
+	for _, c := range caps {
+		if c < len(b) || seen[c] {
+			continue
+		}
+		seen[c] = true
+		buf := make([]byte, c)
+		for j := range buf {
+			buf[j] = 0xEE
+		}
+		copy(buf, b)
+		out = append(out, buf[:len(b)])
+	}
+	return out
+}
